@@ -1,8 +1,18 @@
 #!/venv/bin/python
 """Regenerate MANIFEST.json from harness/manifest_data.py (keeps it valid at all times)."""
 import json, sys
-sys.path.insert(0, '/verif/harness')
-from manifest_data import CHECKS, NOT_APPLICABLE
+import os
+HERE = os.path.dirname(os.path.abspath(__file__))
+CHECKS, NOT_APPLICABLE = [], []
+for i in range(1, 21):
+    pid = f"C{i:02d}"
+    f = os.path.join(HERE, "meta", pid + ".json")
+    meta = json.load(open(f)) if os.path.exists(f) else {}
+    if meta.get("claimed"):
+        CHECKS.append({"property_id": pid, **meta["manifest"]})
+    else:
+        NOT_APPLICABLE.append({"property_id": pid, "reason": meta.get("not_applicable_reason",
+            "check not built yet in this session; will be claimed once its model, theorems and correspondence exist")})
 m = {
  "version": 1,
  "setup_cmd": "./setup.sh",
@@ -27,7 +37,7 @@ for c in CHECKS:
         "engine": "lean-model+correspondence",
         "level_claimed": {"category": "proof", "text": c["text"], "design_ref": c.get("design_ref", f"DESIGN.md §6 {pid}")},
         "level_note": c["note"],
-        "technique": c.get("technique", "Lean 4 theorems over a hand-written executable model + differential correspondence check against /repo"),
+        "technique": c.get("technique", ""Lean 4 theorems over a hand-written executable model + differential correspondence check against /repo"),
     })
-json.dump(m, open('/verif/MANIFEST.json', 'w'), indent=1)
+json.dump(m, open(os.path.join(HERE, 'MANIFEST.json'), 'w'), indent=1)
 print("MANIFEST.json:", len(m["checks"]), "checks,", len(NOT_APPLICABLE), "not_applicable")
